@@ -85,7 +85,12 @@ impl AuthorHeads {
             }
         }
         let encoded = postcard::to_stdvec(&items)?;
-        debug_assert!(size_limit.map(|s| encoded.len() <= s).unwrap_or(true));
+        if let Some(size_limit) = size_limit {
+            anyhow::ensure!(
+                encoded.len() <= size_limit,
+                "size limit is too small to encode author heads"
+            );
+        }
         Ok(encoded)
     }
 
